@@ -268,7 +268,7 @@ void eng_on_dispatch(lp_id_t me, simtime_t now, unsigned type, const void *conte
 		L->trk_proc++;
 		L->trk_total = idx;
 		L->hist_parts[idx][0] = model_state_digest(lp->state_pointer);
-		L->hist_parts[idx][1] = lp->rng_ctx->state[0];
+		L->hist_parts[idx][1] = lp->rng_ctx ? lp->rng_ctx->state[0] : 0;
 		L->hist_parts[idx][2] = live_set_summary(&lp->mm_state);
 	}
 }
@@ -317,7 +317,7 @@ static uint64_t system_digest(int rank, lp_id_t me)
 	struct lp_ctx *lp = lp_of(rank, me);
 	uint64_t h = model_state_digest(lp->state_pointer);
 	for(int k = 0; k < 4; k++)
-		h = mix64(h, lp->rng_ctx->state[k]);
+		h = mix64(h, lp->rng_ctx ? lp->rng_ctx->state[k] : 0); /* a runtime may create the generator lazily */
 	h = mix64(h, live_set_summary(&lp->mm_state));
 	return h;
 }
@@ -518,14 +518,34 @@ void verif_wrap_termination_on_lp_rollback(struct lp_ctx *lp, simtime_t msg_time
 		L->trk_proc = proc_now;
 		L->trk_total = idx;
 	}
-	if(idx < L->hist_cap && L->hist_digest[idx]) {
+	/* C03: the history is what will be declared committed: after a rollback caused by a message with timestamp msg_time nothing that
+	 * was processed with a later timestamp may remain in it */
+	for(array_count_t k = 0; k < array_count(lp->p.p_msgs); k++) {
+		const struct lp_msg *hm = array_get_at(lp->p.p_msgs, k);
+		if(is_msg_past(hm) && hm->dest_t > msg_time) {
+			sim_violation_soft("C03", "rollback-too-shallow",
+			    "LP %llu: after the rollback caused by a message at t=%g the history still holds a processed event at t=%g (entry %u)",
+			    (unsigned long long)me, msg_time, hm->dest_t, (unsigned)k);
+			break;
+		}
+	}
+	/* C06: a history ends with a processed event; sent entries after it belong to an execution that is no longer there */
+	if(idx && !is_msg_past(array_get_at(lp->p.p_msgs, idx - 1)))
+		sim_violation_soft("C06", "undone-send-kept",
+		    "LP %llu: after a rollback (t=%g) the history ends with a sent entry: the event it was sent by has been undone, the send has not been cancelled",
+		    (unsigned long long)me, msg_time);
+	/* the state does not change between a processed entry and the sent entries that follow it */
+	size_t didx = idx;
+	while(didx < L->hist_cap && !L->hist_digest[didx] && didx && !is_msg_past(array_get_at(lp->p.p_msgs, didx - 1)))
+		didx--;
+	if(didx < L->hist_cap && L->hist_digest[didx]) {
 		uint64_t now = system_digest(rank, me);
-		if(now != L->hist_digest[idx])
+		if(now != L->hist_digest[didx])
 			sim_violation_soft("C05", "state-after-rollback",
 			    "LP %llu: state after rollback to history index %zu (t<%g) differs from the state recorded there "
 			    "(differs: model=%d rng=%d live-set=%d)",
-			    (unsigned long long)me, idx, msg_time, model_state_digest(lp->state_pointer) != L->hist_parts[idx][0],
-			    lp->rng_ctx->state[0] != L->hist_parts[idx][1], live_set_summary(&lp->mm_state) != L->hist_parts[idx][2]);
+			    (unsigned long long)me, idx, msg_time, model_state_digest(lp->state_pointer) != L->hist_parts[didx][0],
+			    (lp->rng_ctx ? lp->rng_ctx->state[0] : 0) != L->hist_parts[didx][1], live_set_summary(&lp->mm_state) != L->hist_parts[didx][2]);
 		probe_hit("rb_state_checked");
 	} else {
 		probe_hit("rb_state_unchecked");
@@ -970,10 +990,15 @@ void verif_hook_msg_free(struct lp_msg *msg)
 			struct lp_ctx *lp = lp_of(rank, d);
 			if(lp != releasing_history_of)
 				for(array_count_t i = 0; i < array_count(lp->p.p_msgs); i++)
-					if(array_get_at(lp->p.p_msgs, i) == msg)
+					if(array_get_at(lp->p.p_msgs, i) == msg) {
+						/* the history is what fossil collection declares committed */
+						if(msg->raw_flags & MSG_FLAG_ANTI)
+							sim_violation_soft("C03", "cancelled-event-kept", "LP %llu: the cancelled event %p (t=%g) is released but stays in "
+							    "the history (entry %u) from which committed events are cut", (unsigned long long)d, (void *)msg, msg->dest_t, i);
 						sim_violation("C06", "released-while-in-history",
 						    "message %p (t=%g) released while it is entry %u of the live history of LP %llu", (void *)msg,
 						    msg->dest_t, i, (unsigned long long)d);
+					}
 			if(was_listed_anti)
 				for(struct lp_msg *a = lp->p.early_antis; a; a = a->next)
 					if(a == msg)
